@@ -500,6 +500,11 @@ def run(ctx):
 
     # a user can not cause the removal of another user's chunks: only delete / clean remove anything, and those are gated below
     deletion_confined_to_gc_commands(ctx, 'C06.R9')
+    # a shared-key holder sees that the other's snapshots exist and keeps their chunks: the loader drops a listed snapshot
+    # only for the user filter or a foreign tag - "cannot read the private part" is not a reason to drop it
+    from .c02 import r3_skip_whitelist as _sw
+
+    _sw(Relabel(ctx, 'C06.R4'))
     r7_shared(ctx)
     r1_unlock(ctx)
     # "a wrong password never unlocks": a key whose private section is not sealed unlocks with ANY password
